@@ -57,9 +57,34 @@ pub fn dec_case(body: &str) -> Option<Case> {
 
 const MAX_CALLS: usize = 30;
 
+
+/// the query as the API user would build it: half of the queries (chosen by their text, so that the same query takes the
+/// same route in every run) go through `parse_query()` on their printed text, the others through `make_query()`.
+/// Nothing else is called on the parse route — in particular not `make_query()`, which resets the process state.
+fn same_shape(a: &Unifiable, b: &Unifiable) -> bool {
+    match (a, b) {
+        (Unifiable::LogicVar{name: n1, ..}, Unifiable::LogicVar{name: n2, ..}) => n1 == n2,
+        (Unifiable::SComplex(x), Unifiable::SComplex(y)) => x.len() == y.len() && x.iter().zip(y.iter()).all(|(p, q)| same_shape(p, q)),
+        (Unifiable::LogicVar{..}, _) | (_, Unifiable::LogicVar{..}) | (Unifiable::SComplex(_), _) | (_, Unifiable::SComplex(_)) => false,
+        _ => a == b,
+    }
+}
+fn build_query(query: &Vec<Unifiable>) -> Goal {
+    let text = match catch_unwind(AssertUnwindSafe(|| format!("{}", Unifiable::SComplex(query.clone())))) { Ok(t) => t, Err(_) => return make_query(query.clone()) };
+    let mut hsh: u64 = 0xcbf29ce484222325; for b in text.bytes() { hsh ^= b as u64; hsh = hsh.wrapping_mul(0x100000001b3); }
+    if hsh % 2 == 0 {
+        if let Ok(Ok(g)) = catch_unwind(AssertUnwindSafe(|| parse_query(&text))) {
+            if let Goal::ComplexGoal(Unifiable::SComplex(ts)) = &g {
+                if ts.len() == query.len() && ts.iter().zip(query.iter()).all(|(p, q)| same_shape(p, q)) { return g; }
+            }
+        }
+    }
+    make_query(query.clone())
+}
+
 /// run one whole-API op on a freshly built query; returns the record
 fn run_op<'a>(kb: &'a KnowledgeBase, api: char, fire: usize, query: &Vec<Unifiable>, cap: &mut crate::capture::Capture) -> String {
-    let q = Rc::new(make_query(query.clone()));
+    let q = Rc::new(build_query(query));
     let sn = make_base_node(Rc::clone(&q), kb);
     let mut parts: Vec<String> = vec![];
     cap.take();
@@ -114,7 +139,7 @@ pub fn run_impl(c: &Case, cap: &mut crate::capture::Capture, fresh_each: bool) -
             match op {
                 Op::Run{api, fire, query} => run_op(&kb, *api, *fire, query, cap),
                 Op::New{h, query} => {
-                    let q = Rc::new(make_query(query.clone()));
+                    let q = Rc::new(build_query(query));
                     let sn = make_base_node(Rc::clone(&q), &kb);
                     handles[*h] = Some((q, sn));
                     "new".to_string()
